@@ -29,6 +29,21 @@ impl VisitMut for DerefReplacer {
         syn::visit_mut::visit_expr_mut(self, e);
     }
 }
+
+/// does the block contain a `continue` that belongs to the loop it is the body of?
+fn has_own_continue(b: &syn::Block) -> bool {
+    struct V { found: bool }
+    impl<'ast> syn::visit::Visit<'ast> for V {
+        fn visit_expr_continue(&mut self, _: &'ast syn::ExprContinue) { self.found = true; }
+        fn visit_expr_for_loop(&mut self, _: &'ast syn::ExprForLoop) {}
+        fn visit_expr_while(&mut self, _: &'ast syn::ExprWhile) {}
+        fn visit_expr_loop(&mut self, _: &'ast syn::ExprLoop) {}
+        fn visit_expr_closure(&mut self, _: &'ast syn::ExprClosure) {}
+    }
+    let mut v = V { found: false };
+    syn::visit::Visit::visit_block(&mut v, b);
+    v.found
+}
 /// replaces every use of the plain identifier `ident` (as an expression) by `rep`
 struct PathReplacer {
     ident: String,
@@ -642,6 +657,36 @@ impl<'a> VisitMut for Rules<'a> {
                 }
             }
         }
+        // R37: `A.iter().all(|p| BODY)` -> index loop with early exit (std definition of Iterator::all)
+        if self.ctx.on("R37") {
+            if let syn::Expr::MethodCall(all) = e {
+                if all.method == "all" && all.args.len() == 1 {
+                    if let (syn::Expr::MethodCall(it), syn::Expr::Closure(cl)) = (&*all.receiver, &all.args[0]) {
+                        if it.method == "iter" && it.args.is_empty() && cl.inputs.len() == 1 {
+                            let a = (*it.receiver).clone();
+                            let p = match &cl.inputs[0] { syn::Pat::Type(pt) => (*pt.pat).clone(), q => q.clone() };
+                            let body = (*cl.body).clone();
+                            let k = self.ctx.fresh();
+                            let nn = syn::Ident::new(&format!("vx_n{}", k), proc_macro2::Span::call_site());
+                            let ii = syn::Ident::new(&format!("vx_i{}", k), proc_macro2::Span::call_site());
+                            let rr = syn::Ident::new(&format!("vx_all{}", k), proc_macro2::Span::call_site());
+                            *e = syn::parse_quote!({
+                                let mut #rr = true;
+                                let #nn = #a.len();
+                                for #ii in 0..#nn {
+                                    let #p = &#a[#ii];
+                                    if !(#body) { #rr = false; break; }
+                                }
+                                #rr
+                            });
+                            self.ctx.used("R37");
+                            syn::visit_mut::visit_expr_mut(self, e);
+                            return;
+                        }
+                    }
+                }
+            }
+        }
         // R22: `A.iter()[.zip(B)].map(|pat| BODY).collect()`  ->  index loop pushing BODY into a fresh Vec
         if self.ctx.on("R22") {
             if let Some(new) = self.rewrite_map_collect(e) {
@@ -730,6 +775,95 @@ impl<'a> VisitMut for Rules<'a> {
                         self.ctx.used("R13");
                         syn::visit_mut::visit_expr_mut(self, e);
                         return;
+                    }
+                }
+            }
+            if self.ctx.on("R38") {
+                // R38: `for ((a, b), c) in A.iter().zip(B.iter()).zip(C.iter())` -> index loop over the shortest of the three (std definition of zip)
+                if let (syn::Expr::MethodCall(z2), syn::Pat::Tuple(tp)) = (&*fl.expr, &*fl.pat) {
+                    if z2.method == "zip" && z2.args.len() == 1 && tp.elems.len() == 2 {
+                        if let (syn::Expr::MethodCall(z1), syn::Pat::Tuple(tp1)) = (&*z2.receiver, &tp.elems[0]) {
+                            if z1.method == "zip" && z1.args.len() == 1 && tp1.elems.len() == 2 {
+                                let it = |e: &syn::Expr| -> Option<syn::Expr> { match e { syn::Expr::MethodCall(m) if m.method == "iter" && m.args.is_empty() => Some((*m.receiver).clone()), _ => None } };
+                                if let (Some(a), Some(b), Some(c)) = (it(&z1.receiver), it(&z1.args[0]), it(&z2.args[0])) {
+                                    let k = self.ctx.fresh();
+                                    let nn = syn::Ident::new(&format!("vx_n{}", k), proc_macro2::Span::call_site());
+                                    let ii = syn::Ident::new(&format!("vx_i{}", k), proc_macro2::Span::call_site());
+                                    let (pa, pb, pc) = (tp1.elems[0].clone(), tp1.elems[1].clone(), tp.elems[1].clone());
+                                    let stmts = &fl.body.stmts;
+                                    let label = fl.label.clone();
+                                    let new: syn::Expr = syn::parse_quote!({
+                                        let #nn = { let vx_la = #a.len(); let vx_lb = #b.len(); let vx_lc = #c.len(); let vx_m = if vx_la < vx_lb { vx_la } else { vx_lb }; if vx_m < vx_lc { vx_m } else { vx_lc } };
+                                        #label for #ii in 0..#nn {
+                                            let #pa = &#a[#ii];
+                                            let #pb = &#b[#ii];
+                                            let #pc = &#c[#ii];
+                                            #(#stmts)*
+                                        }
+                                    });
+                                    *e = new;
+                                    self.ctx.used("R38");
+                                    syn::visit_mut::visit_expr_mut(self, e);
+                                    return;
+                                }
+                            }
+                        }
+                    }
+                }
+            }
+            if self.ctx.on("R26") {
+                // R26v: `for x in V` consuming a Vec listed in opts.vec_loops_by_value -> index loop, `x` is the element moved out (trusted vx_vec_take)
+                let rtxt = norm(&fl.expr.to_token_stream().to_string());
+                let listed = self.ctx.opts["vec_loops_by_value"].as_array().map(|a| a.iter().any(|v| v.as_str().map(norm).as_deref() == Some(&rtxt))).unwrap_or(false);
+                if listed {
+                    let k = self.ctx.fresh();
+                    let nn = syn::Ident::new(&format!("vx_n{}", k), proc_macro2::Span::call_site());
+                    let ii = syn::Ident::new(&format!("vx_i{}", k), proc_macro2::Span::call_site());
+                    let vv = syn::Ident::new(&format!("vx_v{}", k), proc_macro2::Span::call_site());
+                    let recv = (*fl.expr).clone();
+                    let pat = fl.pat.clone();
+                    let stmts = &fl.body.stmts;
+                    let label = fl.label.clone();
+                    let new: syn::Expr = syn::parse_quote!({
+                        let #vv = #recv;
+                        let #nn = #vv.len();
+                        #label for #ii in 0..#nn {
+                            let #pat = vx_vec_take(&#vv, #ii);
+                            #(#stmts)*
+                        }
+                    });
+                    *e = new;
+                    self.ctx.used("R26");
+                    syn::visit_mut::visit_expr_mut(self, e);
+                    return;
+                }
+            }
+            if self.ctx.on("R36") {
+                // R36: `for i in A..B { ... continue ... }` -> while loop whose index is advanced at the top of the body (the verifier's
+                // for-loops do not take `continue`); the bounds are evaluated once, as for a range
+                if let (syn::Expr::Range(r), syn::Pat::Ident(pid)) = (&*fl.expr, &*fl.pat) {
+                    if let (Some(start), Some(end), syn::RangeLimits::HalfOpen(_)) = (&r.start, &r.end, &r.limits) {
+                        if has_own_continue(&fl.body) {
+                            let k = self.ctx.fresh();
+                            let nn = syn::Ident::new(&format!("vx_n{}", k), proc_macro2::Span::call_site());
+                            let ii = syn::Ident::new(&format!("vx_i{}", k), proc_macro2::Span::call_site());
+                            let id = pid.ident.clone();
+                            let stmts = &fl.body.stmts;
+                            let label = fl.label.clone();
+                            let new: syn::Expr = syn::parse_quote!({
+                                let mut #ii: usize = #start;
+                                let #nn: usize = #end;
+                                #label while #ii < #nn {
+                                    let #id = #ii;
+                                    #ii = #ii + 1;
+                                    #(#stmts)*
+                                }
+                            });
+                            *e = new;
+                            self.ctx.used("R36");
+                            syn::visit_mut::visit_expr_mut(self, e);
+                            return;
+                        }
                     }
                 }
             }
